@@ -93,9 +93,21 @@ def run_c18(tier):
     for i, c in enumerate(cases):
         d = os.path.join(wd, "v%06d" % i)
         os.makedirs(d)
-        with open(os.path.join(d, "in.yaml"), "w") as f:
-            f.write(decl_yaml(c["V"], rng))
-        jobs.append({"id": i, "dir": d, "args": ["-i", "in.yaml", "-o", "out.go"], "version": cmd_version(c["B"]),
+        text = decl_yaml(c["V"], rng)
+        if i % 4 == 1 and text != CFG_BODY:
+            # the version declared in a file of its own, among several matched by one pattern (first or last in merge order)
+            first = rng.random() < 0.5
+            vline, rest = text.split("\n", 1)
+            with open(os.path.join(d, "00_version.yaml" if first else "90_version.yaml"), "w") as f:
+                f.write(vline + "\n")
+            with open(os.path.join(d, "10_app.yaml"), "w") as f:
+                f.write(rest)
+            args = ["-i", "*.yaml", "-o", "out.go"]
+        else:
+            with open(os.path.join(d, "in.yaml"), "w") as f:
+                f.write(text)
+            args = ["-i", "in.yaml", "-o", "out.go"]
+        jobs.append({"id": i, "dir": d, "args": args, "version": cmd_version(c["B"]),
                      "buildinfo": "verif", "out": "out.go"})
     pool = core.DriverPool()
     try:
@@ -109,7 +121,7 @@ def run_c18(tier):
         if res["exit"] not in (0, 1):
             v.disagree("abnormal-exit", c, {"exit": res["exit"], "panic": res.get("panic", "")[:500]})
         elif got != c["exp"]:
-            v.disagree("gate-verdict", c, {"B": j["version"], "yaml": open(os.path.join(j["dir"], "in.yaml")).read().split("\n")[0],
+            v.disagree("gate-verdict", c, {"B": j["version"], "args": j["args"], "yaml": semver_str(c["V"]["v"]) if c["V"]["kind"] == "semver" else c["V"]["kind"],
                                            "expected": c["exp"], "got": got, "errors": core.Report(res["stdout"]).errors[:3]},
                        tags={"expected": c["exp"], "got": got, "Bkind": c["B"]["kind"], "Vkind": c["V"]["kind"]})
     # real binaries: the route through main.go (ldflags, v prefix stripping, non-semver labels)
